@@ -239,7 +239,16 @@ def run_universe(R, seed, uid, tier, grow=False):
                 inp, outp = make_protocols(kind, poly)
                 app = B.app(inp, outp)
                 if kind in XML_KINDS:
-                    w = app.interface.docs.wsdl11
+                    # a server answers requests before anybody asks it for its interface document: in half of the configurations
+                    # the application that serves has built none, and the reference side reads the WSDL of a twin application
+                    fresh_server = (not grow) and rng.random() < .5
+                    if fresh_server:
+                        B2 = gen.Built(ir)
+                        inp2, outp2 = make_protocols(kind, poly)
+                        w = B2.app(inp2, outp2).interface.docs.wsdl11
+                        R.count('servers_without_interface_document')
+                    else:
+                        w = app.interface.docs.wsdl11
                     w.build_interface_document('http://localhost/')
                     W = refxml.Wire(B, w.get_interface_document(), rng)
                 else:
